@@ -44,18 +44,6 @@ def load_known():
         return json.load(handle)
 
 
-def match_known(prop, violation, known):
-    for finding in known.get("findings", []):
-        if finding.get("property") != prop:
-            continue
-        needle = finding.get("match", {})
-        oracle_ok = needle.get("oracle") is None or needle["oracle"] in violation.get("oracle", "")
-        sig_ok = needle.get("signature") is None or needle["signature"] in (violation.get("signature") or violation.get("detail", ""))
-        if oracle_ok and sig_ok:
-            return finding
-    return None
-
-
 def write_evidence(prop, tier, seed, coverage, wall, violations, assumptions):
     evdir = os.environ.get("VERIF_EVIDENCE_DIR") or os.path.join(HERE, "evidence")
     os.makedirs(evdir, exist_ok=True)
@@ -85,14 +73,16 @@ def run_check(prop, tier, seed, runs=None, workers=None, wall_cap=None):
     cap = wall_cap or cap
     deadline = t0 + cap
     print("SEED %d property=%s tier=%s runs=%d determinism_pairs=%d" % (seed, prop, tier, n_runs, n_pairs), flush=True)
+    known = load_known()
+    findings = [f for f in known.get("findings", []) if f.get("property") == prop]
     tasks = []
     for idx in range(n_runs):
-        task = {"prop": prop, "mode": "run", "seed": seed, "run": idx, "tier": tier}
+        task = {"prop": prop, "mode": "run", "seed": seed, "run": idx, "tier": tier, "known": findings}
         if idx < n_pairs:
             task["hash_seed"] = procs.HASH_SEEDS[0]
         tasks.append(task)
     for idx in range(n_pairs):
-        tasks.append({"prop": prop, "mode": "run", "seed": seed, "run": idx, "tier": tier,
+        tasks.append({"prop": prop, "mode": "run", "seed": seed, "run": idx, "tier": tier, "known": findings,
                       "hash_seed": procs.HASH_SEEDS[1], "minimise": False, "twin": True})
     state = {"violations": 0}
 
@@ -100,7 +90,15 @@ def run_check(prop, tier, seed, runs=None, workers=None, wall_cap=None):
         if res.get("violations"):
             state["violations"] += 1
 
-    results, errors = procs.run_tasks(tasks, n_workers=workers, deadline=deadline, progress=progress)
+    def prepare(task):
+        # a badly broken tree: report quickly instead of minimising hundreds of failures
+        if state["violations"] >= 40:
+            return None
+        if state["violations"] >= 3:
+            task["minimise"] = False
+        return task
+
+    results, errors = procs.run_tasks(tasks, n_workers=workers, deadline=deadline, progress=progress, prepare=prepare)
     wall = time.time() - t0
     harness_errors = list(errors)
     done = [r for r in results if r is not None]
@@ -123,23 +121,23 @@ def run_check(prop, tier, seed, runs=None, workers=None, wall_cap=None):
         if res["digest"] != twin["digest"]:
             mismatches.append(res["run"])
 
-    known = load_known()
     meta = engine_meta(prop)
     violation_lines = []
     known_lines = []
+    known_counts = {}
     seen_classes = set()
     n_viol = 0
+    by_id = {f["id"]: f for f in findings}
     for res in executed:
+        for fid in res.get("known_hits", []):
+            known_counts[fid] = known_counts.get(fid, 0) + 1
+            line = "KNOWN-FINDING: property=%s %s" % (prop, by_id[fid]["what"])
+            if line not in known_lines:
+                known_lines.append(line)
         if not res.get("violations"):
             continue
         replay = res.get("replay")
         first = res["violations"][0]
-        finding = match_known(prop, first, known)
-        if finding is not None:
-            line = "KNOWN-FINDING: property=%s %s" % (prop, finding["what"])
-            if line not in known_lines:
-                known_lines.append(line)
-            continue
         n_viol += 1
         klass = replay["class"] if replay else first["oracle"]
         if klass in seen_classes and len(violation_lines) >= 3:
@@ -178,7 +176,7 @@ def run_check(prop, tier, seed, runs=None, workers=None, wall_cap=None):
         "hash_seeds": procs.HASH_SEEDS,
         "workers": workers or os.cpu_count(),
         "budget_capped": len(done) < len(tasks),
-        "known_findings_seen": known_lines,
+        "known_findings_seen": known_counts,
     })
     write_evidence(prop, tier, seed, coverage, wall, n_viol, meta.ASSUMPTIONS)
     for line in known_lines:
@@ -210,12 +208,13 @@ def verify_replay(prop, path):
     """Replay the file in a fresh interpreter and confirm the violation class."""
     with open(path) as handle:
         payload = json.load(handle)
-    task = {"prop": prop, "mode": "replay", "scenario": payload["scenario"], "hash_seed": payload.get("hash_seed")}
+    findings = [f for f in load_known().get("findings", []) if f.get("property") == prop]
+    task = {"prop": prop, "mode": "replay", "scenario": payload["scenario"], "hash_seed": payload.get("hash_seed"), "known": findings}
     results, errors = procs.run_tasks([task], n_workers=1)
     res = results[0]
     if errors or res is None or res.get("harness_error"):
         return "error"
-    return res.get("class") == payload["class"]
+    return payload["class"] in (res.get("classes") or [])
 
 
 def replay(prop, path):
@@ -224,7 +223,8 @@ def replay(prop, path):
     if "scenario" not in payload:
         print("replay file has no scenario (hash-seed class): " + payload.get("how", ""))
         return 2
-    task = {"prop": prop, "mode": "replay", "scenario": payload["scenario"], "hash_seed": payload.get("hash_seed")}
+    findings = [f for f in load_known().get("findings", []) if f.get("property") == prop]
+    task = {"prop": prop, "mode": "replay", "scenario": payload["scenario"], "hash_seed": payload.get("hash_seed"), "known": findings}
     results, errors = procs.run_tasks([task], n_workers=1)
     res = results[0]
     if errors or res is None or res.get("harness_error"):
@@ -233,8 +233,10 @@ def replay(prop, path):
     print("REPLAY property=%s run_seed=%s digest=%s" % (prop, payload.get("run_seed"), res.get("digest")))
     for viol in res.get("violations", []):
         print("  %s | %s | event %s | %s" % (viol["oracle"], viol.get("where", ""), viol.get("event"), viol.get("detail")))
+    for fid in res.get("known_hits", []):
+        print("KNOWN-FINDING: property=%s %s" % (prop, fid))
     if res.get("violations"):
-        same = res.get("class") == payload.get("class")
+        same = payload.get("class") in (res.get("classes") or [])
         print("VIOLATION property=%s replay=%s" % (prop, path))
         print("  reproduced class %s: %s" % (payload.get("class"), same))
         return 1
